@@ -3,6 +3,7 @@ import Props.C19Gen
 import Model.Loaders
 import Model.Codec
 import Proofs.Sort
+import Model.Fetcher
 /-!
 # The slice and map helpers of the library, translated, equal the model
 
@@ -563,5 +564,61 @@ theorem logDifference_eq (EA HA : List Entry) (l : Log) :
       constructor <;> omega
     simp only [this, Bool.false_eq_true, if_false, h0]
     rw [diffLoop_eq EA HA l.entries l.id _ _ [] [] [] (fun _ => rfl)]
+
+/-! ## the fetcher's `updateClock` and `addNextEntry` (the bounded admission rule of C10/C11) -/
+
+theorem updateClock_eq {Q : Type} (add : Q → Hash → Q) (len : Int) (s : FState) (e : Entry) :
+    Generated.Go.updateClock add len s.maxClock s.minClock e s.results.getLast? = (newMax s e, newMin s e) := by
+  unfold Generated.Go.updateClock newMin newMax
+  cases hl : s.results.getLast? with
+  | none =>
+    simp only [Option.isSome_none, Bool.false_eq_true, if_false]
+    by_cases h : s.maxClock < e.clock.time <;> simp [h] <;> omega
+  | some l =>
+    simp only [Option.isSome_some, if_true, Option.getD_some]
+    by_cases h : s.maxClock < e.clock.time <;> by_cases h2 : l.clock.time < s.minClock <;> simp [h, h2] <;> omega
+
+theorem addHash_fields (cfg : FCfg) (s : FState) (h : Hash) :
+    (addHash cfg s h).results = s.results ∧ (addHash cfg s h).minClock = s.minClock := by
+  unfold addHash; split <;> exact ⟨rfl, rfl⟩
+
+theorem addHashes_fields (cfg : FCfg) : ∀ (hs : List Hash) (s : FState),
+    (addHashes cfg s hs).results = s.results ∧ (addHashes cfg s hs).minClock = s.minClock := by
+  intro hs
+  induction hs with
+  | nil => intro s; exact ⟨rfl, rfl⟩
+  | cons h t ih =>
+    intro s
+    have := ih (addHash cfg s h)
+    have h2 := addHash_fields cfg s h
+    unfold addHashes at *
+    rw [List.foldl_cons]
+    exact ⟨this.1.trans h2.1, this.2.trans h2.2⟩
+
+theorem addNextEntry_eq (cfg : FCfg) (s : FState) (e : Entry) :
+    Generated.Go.addNextEntry (addHash cfg) cfg.length s.maxClock s.minClock s e s.results = addNext cfg s e := by
+  unfold Generated.Go.addNextEntry addNext
+  by_cases h0 : cfg.length < 0
+  · simp only [h0, decide_true, if_true]; rfl
+  · simp only [h0, decide_false, Bool.false_eq_true, if_false]
+    unfold queueRefs queueNext
+    by_cases h1 : (s.results.length : Int) < cfg.length ∨ e.clock.time ≥ s.minClock
+    · have h1' : ((decide ((s.results.length : Int) < cfg.length) || decide (e.clock.time > s.minClock)) || (e.clock.time == s.minClock)) = true := by
+        rcases h1 with h | h
+        · simp [h]
+        · by_cases hq : e.clock.time = s.minClock
+          · simp [hq]
+          · have : e.clock.time > s.minClock := by omega
+            simp [this]
+      simp only [h1', if_true, h1, (addHashes_fields cfg e.next s).1]
+      by_cases h2 : (s.results.length : Int) + (e.refs.length : Int) ≤ cfg.length <;> simp [h2, addHashes]
+    · have h1' : ((decide ((s.results.length : Int) < cfg.length) || decide (e.clock.time > s.minClock)) || (e.clock.time == s.minClock)) = false := by
+        have a : ¬ (s.results.length : Int) < cfg.length := fun h => h1 (Or.inl h)
+        have b : ¬ e.clock.time ≥ s.minClock := fun h => h1 (Or.inr h)
+        have c : ¬ e.clock.time > s.minClock := by omega
+        have d : ¬ e.clock.time = s.minClock := by omega
+        simp [a, c, d]
+      simp only [h1', Bool.false_eq_true, if_false, h1]
+      by_cases h2 : (s.results.length : Int) + (e.refs.length : Int) ≤ cfg.length <;> simp [h2, addHashes]
 
 end Model.SlicesGen
